@@ -161,8 +161,13 @@ def exec_ideal(case):
 
 
 def exec_vdw(case):
-    from pmutt.eos import IdealGasEOS
     obj, a, b = _vdw_object(case)
+    return _probe_vdw(obj, a, b, case)
+
+
+def _probe_vdw(obj, a, b, case):
+    """every getter of `obj` at one state, recorded against the parameters (a, b) the object holds NOW"""
+    from pmutt.eos import IdealGasEOS
     T, P, n, gas = case['T'], case['P'], case['n'], bool(case['gas'])
     Vm = _call('get_Vm', lambda: obj.get_Vm(T=T, P=P, gas_phase=gas))
     V = _call('get_V', lambda: obj.get_V(T=T, P=P, n=n, gas_phase=gas))
@@ -184,6 +189,44 @@ def exec_vdw(case):
             detail['mismatch'] = {'expected_root': case['expect'], 'selected_root': got,
                                   'Vm_over_lambda': Vm / case['lam']}
     return [ev], detail
+
+
+def exec_edit(case):
+    """Edit history on ONE live object: solve (T, P); assign a and/or b (public attributes; a parameter
+    scan at fixed conditions); solve the SAME (T, P); another state; edit back; the first state again.
+    Every step is judged by the ordinary clauses on the CURRENT parameters and compared with a fresh
+    object built from them (EditedEqualsFresh)."""
+    from pmutt.eos import vanDerWaalsEOS
+    params = case['params']                      # [[a, b], ...]: parameters after construction / each edit
+    st1 = {'T': case['T'], 'P': case['P'], 'n': case['n'], 'gas': case['gas']}
+    st2 = {'T': case['T2'], 'P': case['P2'], 'n': case['n'], 'gas': not case['gas']}
+    obj = vanDerWaalsEOS(a=params[0][0], b=params[0][1])
+    events, nroots = [], []
+    # (parameters index, state): same state re-solved right after each edit
+    plan = [(0, st1), (1, st1), (1, st2), (2, st2), (2, st1), (0, st1)]
+    cur = 0
+    for idx, st in plan:
+        if idx != cur:
+            a, b = params[idx]
+            how = case['how'][idx]
+            if how in ('a', 'ab'):
+                obj.a = a
+            if how in ('b', 'ab'):
+                obj.b = b
+            cur = idx
+        a, b = float(obj.a), float(obj.b)
+        evs, det = _probe_vdw(obj, a, b, st)
+        fresh, _ = _probe_vdw(vanDerWaalsEOS(a=a, b=b), a, b, st)
+        events += evs
+        nroots.append(det['nroots'])
+        events.append({'ev': 'edit', 'step': len(events),
+                       'pairs': [[to_dec2(_val(evs[0][k])), to_dec2(_val(fresh[0][k]))]
+                                 for k in ('Vm', 'V', 'Pb', 'Tb', 'nb')]})
+    return events, {'nroots': nroots, 'a': float(obj.a), 'b': float(obj.b)}
+
+
+def _val(d):
+    return d[0] * 10.0 ** d[1]
 
 
 def exec_crit(case):
@@ -419,6 +462,8 @@ def execute(case):
             return exec_array(case)
         if case['kind'] == 'forms':
             return exec_forms(case)
+        if case['kind'] == 'edit':
+            return exec_edit(case)
         return exec_crit(case)
     except _Raised as ex:
         msg = str(ex)
@@ -715,6 +760,35 @@ def gen_forms(rnd, count):
     return out
 
 
+def gen_edit(rnd, count):
+    """parameter edits at fixed (T, P): a only, b only, both (the third set = what from_critical gives
+    for a random (Tc, Pc)); sub- and super-critical first states"""
+    out = []
+    while len(out) < count:
+        a0, b0 = logu(rnd, *A_RANGE), logu(rnd, *B_RANGE)
+        how1 = rnd.choice(['a', 'b', 'ab'])
+        a1 = logu(rnd, *A_RANGE) if 'a' in how1 else a0
+        b1 = logu(rnd, *B_RANGE) if 'b' in how1 else b0
+        Tc, Pc = logu(rnd, 60.0, 1000.0), logu(rnd, *PC_RANGE)
+        a2 = 27.0 / 64.0 * (R_SI * Tc) ** 2 / (Pc * BAR)
+        b2 = R_SI * Tc / 8.0 / (Pc * BAR)
+        Tc0 = 8.0 * a0 / (27.0 * b0 * R_SI)
+        T = Tc0 * rnd.choice([rnd.uniform(0.5, 0.95), rnd.uniform(1.05, 3.0)])
+        if not inside(T, T_RANGE):
+            continue
+        P = logu(rnd, *P_RANGE)
+        if T < Tc0:
+            plo, phi = spinodal_pressures(a0, b0, T)
+            plo, phi = max(plo, P_RANGE[0] * BAR), min(phi, P_RANGE[1] * BAR)
+            if plo < phi:
+                P = rnd.uniform(plo, phi) / BAR
+        T2, P2, n = _state(rnd)
+        out.append({'kind': 'edit', 'src': 'edit', 'params': [[a0, b0], [a1, b1], [a2, b2]],
+                    'how': ['ab', how1, 'ab'], 'T': T, 'P': P, 'T2': T2, 'P2': P2, 'n': n,
+                    'gas': len(out) % 2 == 0})
+    return out
+
+
 def _sig(x):
     return '%.3e' % x
 
@@ -742,6 +816,13 @@ def run(ctx):
                 raise core.MachineryError('selection variant %s should be rejected by the design model:\n%s'
                                           % (cfg, bad.out[-2000:]))
             ctx.notes.append('design model rejects "%s": %s violated' % (why, bad.violated))
+        ctx.model('MC_EOS', 'MC_EOS_memo', workers=4)
+        bad = ctx.model('MC_EOS', 'MC_EOS_memo_stale', workers=2, expect_ok=False)
+        if bad.ok or bad.violated not in ('OnEquation', 'Selected'):
+            raise core.MachineryError('a get_Vm memo keyed by (T, P) only should be rejected by the design model:\n%s'
+                                      % bad.out[-2000:])
+        ctx.notes.append('design model rejects "get_Vm memo keyed by (T, P) only, a/b assigned afterwards": %s violated'
+                         % bad.violated)
         tlc_cases, r = core.tlc_cases('MC_EOS', 'MC_EOS_cases')
         if not tlc_cases:
             raise core.MachineryError('no cases emitted by MC_EOS')
@@ -757,6 +838,7 @@ def run(ctx):
                  + gen_dilute_subcritical(rnd, ctx.pick(60, 2000))
                  + gen_dense_supercritical(rnd, ctx.pick(60, 2000))
                  + gen_forms(rnd, ctx.pick(90, 1500))
+                 + gen_edit(rnd, ctx.pick(80, 1500))
                  + gen_nearcrit(rnd, ctx.pick(150, 3000))
                  + gen_fromcrit_states(rnd, ctx.pick(250, 6000))
                  + gen_crit(rnd, ctx.pick(150, 3000))
@@ -769,7 +851,8 @@ def run(ctx):
              'dilute_subcritical_liquid_three_roots': 0, 'dense_supercritical_states': 0,
              'forms_cases_vdw': 0, 'forms_cases_ideal': 0, 'forms_three_root_states': 0,
              'ideal_range_end_states': 0, 'critical_range_end_objects': 0, 'critical_amount_not_one': 0,
-             'array_liquid_subcritical': 0}
+             'array_liquid_subcritical': 0, 'same_state_resolved_after_parameter_edit': 0,
+             'edit_cases_three_roots_first_state': 0}
     for tid, (case, (events, detail)) in enumerate(zip(cases, results)):
         ctx.evaluated()
         tags = {'kind': case['kind'], 'src': case.get('src', case['kind']), 'gas': case.get('gas')}
@@ -777,7 +860,8 @@ def run(ctx):
               [_sig(x) for k in ('a', 'b', 'T', 'P', 'n') if k in case
                for x in (case[k] if isinstance(case[k], list) else [case[k]])] + \
               [_sig(x) for x in case.get('from_critical', [])] + \
-              [_sig(case[k][q]) for k in ('A', 'B') if k in case for q in ('T', 'P', 'n')] + [case.get('eos')]
+              [_sig(case[k][q]) for k in ('A', 'B') if k in case for q in ('T', 'P', 'n')] + [case.get('eos')] + \
+              [_sig(x) for pr in case.get('params', []) for x in pr]
         if case['kind'] == 'vdw':
             nr = detail.get('nroots', 0)
             if nr == 3:
@@ -811,6 +895,10 @@ def run(ctx):
                 stats['array_refused' if 'array_refused' in detail else 'array_cases'] += 1
                 if case.get('sub') and not case.get('gas', True):
                     stats['array_liquid_subcritical'] += 1
+            if case['kind'] == 'edit' and 'nroots' in detail:
+                stats['same_state_resolved_after_parameter_edit'] += 2       # steps 2 and 6 of the plan
+                if detail['nroots'][0] == 3:
+                    stats['edit_cases_three_roots_first_state'] += 1
             if case['kind'] == 'forms':
                 stats['forms_cases_' + case['eos']] += 1
                 if detail.get('nroots') == 3:
@@ -850,7 +938,9 @@ def run(ctx):
                                     or stats['ideal_range_end_states'] < 64
                                     or stats['critical_range_end_objects'] < 32
                                     or stats['critical_amount_not_one'] < 20
-                                    or stats['array_liquid_subcritical'] < 5):
+                                    or stats['array_liquid_subcritical'] < 5
+                                    or stats['same_state_resolved_after_parameter_edit'] < 100
+                                    or stats['edit_cases_three_roots_first_state'] < 5):
         raise core.MachineryError('vacuous run: %r' % (stats,))
     ctx.assume('R = 8.3144598 J/mol/K and 1 bar = 1e5 Pa are fixed in the specification (documented values)')
     ctx.assume('the real roots used by RootSelected are bracketed by the harness (sign changes of the cubic on a '
